@@ -513,13 +513,17 @@ func DownloadFolderHandler(rwc io.ReadWriter, fullPath string, fileTransfer *Fil
 				return fmt.Errorf("error sending resource fork header: %w", err)
 			}
 
+			// A file that has a stored information fork (e.g. a comment) need not have a stored resource fork: the
+			// header above announced a fork of 0 bytes, and the rest of the folder still has to be sent.
 			rFile, err := hlFile.rsrcForkFile()
-			if err != nil {
+			if err != nil && !errors.Is(err, fs.ErrNotExist) {
 				return fmt.Errorf("error opening resource fork: %w", err)
 			}
 
-			if _, err = io.Copy(rwc, io.TeeReader(rFile, fileTransfer.bytesSentCounter)); err != nil {
-				return fmt.Errorf("error sending resource fork: %w", err)
+			if err == nil {
+				if _, err = io.Copy(rwc, io.TeeReader(rFile, fileTransfer.bytesSentCounter)); err != nil {
+					return fmt.Errorf("error sending resource fork: %w", err)
+				}
 			}
 		}
 
